@@ -282,6 +282,12 @@ func (maps *trackedMaps) processUnfiltered(ctx context.Context, ef *Filter, filt
 					return fmt.Errorf("%s: unable to create new tracked maps for slice: %w", op, err)
 				}
 				f := field
+				if !f.CanSet() {
+					// a struct stored by value in the map isn't settable, so
+					// filter a settable copy of it and store that instead.
+					f = reflect.New(ftype).Elem()
+					f.Set(field)
+				}
 				if err := ef.filterField(ctx, f, filterOverrides, newMaps, opt...); err != nil {
 					return fmt.Errorf("%s: unable to filter struct: %w", op, err)
 				}
